@@ -115,6 +115,17 @@ namespace ValueFlow
         return false;
     }
 
+    ValueType::Sign getConversionSign(const ValueType& vt, const Settings& settings)
+    {
+        if (vt.type == ValueType::Type::CHAR && vt.sign == ValueType::Sign::UNKNOWN_SIGN) {
+            if (settings.platform.defaultSign == 's' || settings.platform.defaultSign == 'S')
+                return ValueType::Sign::SIGNED;
+            if (settings.platform.defaultSign == 'u' || settings.platform.defaultSign == 'U')
+                return ValueType::Sign::UNSIGNED;
+        }
+        return vt.sign;
+    }
+
     MathLib::bigint truncateIntValue(MathLib::bigint value, size_t value_size, const ValueType::Sign dst_sign)
     {
         if (value_size == 0)
